@@ -52,6 +52,8 @@ int main(void)
     if (i == 12 + FLDW) b = 1;
 #elif TPL == 3                    /* 13 arbitrary bytes, then a run of the digit '1' closed by SOH at the end of the stream */
     if (i >= 13) b = (i == L - 1) ? 1 : '1';
+#elif TPL == 5                    /* "8=FIX.4.2" <1 arbitrary byte> SOH "9=" ...: a BeginString value one byte longer than the session's (FIXP=9) */
+    if (i == 10) b = 1; if (i == 11) b = '9'; if (i == 12) b = '=';
 #elif TPL == 4                    /* "8=FIX.4.2|9" (FIXP=11), three arbitrary bytes, SOH: second field's tag and first value byte arbitrary */
     if (i == 14) b = 1;
 #endif
@@ -76,8 +78,9 @@ int main(void)
   int cls_nonnum = pre_ok && !alld;                       /* BodyLength text with a non-digit */
   int cls_wrap = pre_ok && nd > 9;                        /* BodyLength text of 10+ digits (wraps unsigned) */
   int cls_overflow = tagd >= 32 || fl >= fld;             /* a field text that does not fit tag[32] / val[FIX8_MAX_FLD_LENGTH] */
+  int cls_nulbs = len > 10 && vf_stream[9] == 0; for (uint32_t i = 0; i < 9; i++) if (i < len && vf_stream[i] != pre[i]) cls_nulbs = 0;   /* BeginString value = the session's text followed by a NUL byte */
   int cls_tagprefix = tag1 || tag2;                       /* first/second tag merely starts with 8 / 9 (e.g. "99=") */
-  cx_cls = (cls_nonnum ? 1 : 0) | (cls_wrap ? 2 : 0) | (cls_overflow ? 4 : 0) | (cls_tagprefix ? 8 : 0);
+  cx_cls = (cls_nonnum ? 1 : 0) | (cls_wrap ? 2 : 0) | (cls_overflow ? 4 : 0) | (cls_tagprefix ? 8 : 0) | (cls_nulbs ? 16 : 0);
 #ifdef KF_READER_NONNUMERIC_LEN
   VF_ASSUME(!cls_nonnum);
 #endif
@@ -89,6 +92,9 @@ int main(void)
 #endif
 #ifdef KF_READER_TAG_PREFIX
   VF_ASSUME(!cls_tagprefix);
+#endif
+#ifdef KF_READER_NUL_BEGINSTRING
+  VF_ASSUME(!cls_nulbs);
 #endif
   cx_kind = (pre_ok ? 1 : 0) | (term_ok ? 2 : 0) | (wellformed ? 4 : 0);
   uint32_t r = vf_read(&the_reader, &the_to);
